@@ -896,6 +896,19 @@ def h6(rec, world, shard, nshards, bound, version):
 
     def chk(x):
         listing = check_common(rec, world, x, "H6", [version], False)
+        # the refresher downloads and installs only while it holds the cache lock
+        held = False
+        for pid, variant, kind, detail in x.log:
+            if pid != 0:
+                continue
+            if kind == "lock-acquire" and variant == "go":
+                held = True
+            elif kind == "lock-release":
+                held = False
+            elif kind == "url-download" and not held:
+                rec.violation("C19:H6:download-outside-the-cache-lock", choices=x.taken,
+                              schedule=[(p, v, k) for p, v, k, d in x.log][-30:])
+                break
         if name not in listing:
             rec.violation("C19:H6:cached-schema-disappeared", choices=x.taken)
         rec.outcome("H6:final=" + ("new" if listing.get(name) == new else "old" if listing.get(name) == old else "other"))
